@@ -166,6 +166,11 @@ working / home directory, no other environment variable, no temporary-file name,
 scan of the whole package, bundled third-party code excluded; a hit is listed by file and line in the replay.) -/
 theorem C07_no_undeclared_ambient_inputs_in_source : TplFlows.noUndeclaredAmbientInputs = true := by decide
 
+/-- The override files of `--configuration` / `LanguageContextBuilder.add_config_files` are read in the order they are given
+(a later file wins), not in an order derived from how their paths are spelled: the same files in the same order give
+the same configuration from every working directory and at every location.  (Source fact, regenerated.) -/
+theorem C07_config_files_read_in_given_order_in_source : TplFlows.configFilesReadInGivenOrder = true := by decide
+
 /-- `ExternalProgramEditInPlace.__call__` / `SetFileMode.__call__` / the command line's list builder are the statements
 `Model/FilePP.lean` was transcribed from, and no file post-processor writes object state. -/
 theorem C07_file_pp_model_matches_source :
